@@ -82,9 +82,12 @@ type genState struct {
 	nftOwner map[uint64]int
 	nftAddr  string
 	jailed   map[int]bool
+	wrong      map[int]int  // wrong answers a validator has committed to so far
 	gone       map[int]bool // validators that withdrew their whole stake
 	taken      map[int]int64 // units of power a validator took back
 	hugeQueue  bool
+	seed       uint64
+	idx        int
 	bigTenants []uint64
 	followUps []Event // emitted right after the next begin-block: the actions that would profit from a shadow write
 }
@@ -114,7 +117,7 @@ var ownerPool = []string{
 
 func GenHistory(seed uint64, idx int, p Profile) History {
 	r := NewRng(seed*1000003 + uint64(idx))
-	g := &genState{r: r, p: p, commits: map[int]*Msg{}, former: map[int]int{}, feeders: map[int]int{}, nftOwner: map[uint64]int{}, jailed: map[int]bool{}, gone: map[int]bool{}, taken: map[int]int64{}}
+	g := &genState{r: r, p: p, seed: seed, idx: idx, commits: map[int]*Msg{}, former: map[int]int{}, feeders: map[int]int{}, nftOwner: map[uint64]int{}, jailed: map[int]bool{}, gone: map[int]bool{}, taken: map[int]int64{}, wrong: map[int]int{}}
 	nv := 3 + r.Intn(3)
 	if p.Probono && r.Chance(30) {
 		nv = 6 + r.Intn(2) // the chain runs with constant power 1 per validator: shares of 1/6 need six of them
@@ -415,7 +418,7 @@ func (g *genState) manyGenesis() {
 	r := g.r
 	nt := 1 + r.Intn(2)
 	total := 110 + r.Intn(41)
-	huge := r.Chance(25)
+	huge := (g.seed+uint64(g.idx))%3 == 0 // a fixed third of the histories, whatever the random draws
 	if huge {
 		// one tenant with more payable records than any per-block budget a maintainer might think of (256), a second
 		// one with a handful: all funded at once
@@ -592,6 +595,9 @@ func (g *genState) oracleMsgs() []Event {
 				owner := ownerPool[0]
 				if r.Chance(g.p.Wrongness) {
 					owner = ownerPool[r.Intn(len(ownerPool))]
+					if owner != ownerPool[0] {
+						g.wrong[v]++
+					}
 				}
 				entries = append(entries, g.entry(pr, owner))
 				if r.Chance(8) {
@@ -734,10 +740,19 @@ func (g *genState) block() {
 			g.nftOwner[tok] = to
 		}
 	}
-	if g.p.Jail && r.Chance(5) {
+	if g.p.Jail && r.Chance(8) {
 		// a validator takes its stake back: all of it (it leaves the bonded set and is removed from staking once the
 		// unbonding has matured) or a part
 		v := r.Intn(g.nVals)
+		if r.Chance(70) {
+			// preferably a validator that has answered wrongly (its miss counter is running): does the counter, and the
+			// closing of the window, cope with a validator that has left?
+			for i := 0; i < g.nVals; i++ {
+				if g.wrong[i] > g.wrong[v] && !g.gone[i] {
+					v = i
+				}
+			}
+		}
 		active := 0
 		for i := 0; i < g.nVals; i++ {
 			if !g.jailed[i] && !g.gone[i] {
